@@ -210,7 +210,29 @@ def t8_serialize(T, consts):
         out.append("Definition %s : N := %d." % (nm, const_or_lit(m.group(1), fname)))
     return "\n".join(out) + "\n"
 
+def t9_accessors(T):
+    """the forms of the ClientHello trait's provided methods rand_time / rand_bytes"""
+    U = T.Untranslatable
+    src = T.strip_comments(T.read("src/tls_handshake.rs"))
+    m = re.search(r"pub\s+trait\s+ClientHello<'a>\s*\{", src)
+    if not m: raise U("trait ClientHello not found")
+    c = T.match_close(src, m.end() - 1, "{", "}")
+    body = src[m.end():c]
+    rt = T.nows(T.fn_body(body, "rand_time", "trait ClientHello"))
+    forms = {
+        "self.random().try_into().map(u32::from_be_bytes).unwrap_or(0)": "RtWholeSlice",
+        "self.random().get(..4).and_then(|s|s.try_into().ok()).map(u32::from_be_bytes).unwrap_or(0)": "RtFirstFour",
+    }
+    if rt not in forms: raise U("ClientHello::rand_time body not recognised: %r" % rt)
+    rb = T.nows(T.fn_body(body, "rand_bytes", "trait ClientHello"))
+    if rb != "self.random().get(4..).unwrap_or(&[])": raise U("ClientHello::rand_bytes body not recognised: %r" % rb)
+    cs = T.nows(T.fn_body(body, "cipher_suites", "trait ClientHello"))
+    if cs != "self.ciphers().iter().map(|&x|x.get_ciphersuite()).collect()": raise U("ClientHello::cipher_suites body not recognised: %r" % cs)
+    return ("(* GENERATED by tools/translate.py (T9) from the provided methods of trait ClientHello -- do not edit *)\n"
+            "Inductive rand_time_form := RtWholeSlice | RtFirstFour.\nDefinition rand_time_src : rand_time_form := %s.\n" % forms[rt])
+
 def run(T, step, enums):
+    step("T9", ["AccessorForms.v"], lambda: {"AccessorForms.v": t9_accessors(T)})
     step("T3a", ["CipherTxt.v"], lambda: {"CipherTxt.v": t3a_cipher_txt(T)})
     if enums is not None:
         consts = T.const_lookup(enums)
